@@ -204,16 +204,7 @@ def createFromOutcomes (env : Env) (fixFrom : Bool) (st : Store) (r : CreateReq)
     (reg : Manifest × List (String × Bytes)) : List (Store × List String) :=
   let names := resolveAll env st r.name
   let srcs := if fixFrom then resolveAll env st f else [f]
-  names.flatMap (fun nm => srcs.map (fun sn =>
-    let r' := { r with src := some sn }
-    match st.man sn with
-    | some _ => createAt env st r' nm false
-    | none =>
-      match pullAt env st sn (some reg.1) reg.2 with
-      | (st1, ["s"]) =>
-        let (st2, ev) := createAt env st1 r' nm false
-        (st2, "s" :: ev)
-      | (st1, _) => (st1, ["e500"])))
+  names.flatMap (fun nm => srcs.map (fun sn => createFromPull env st r nm sn reg.1 reg.2))
 
 def pOp : TP Op := do
   let k ← tok
